@@ -347,6 +347,12 @@ def _parse_einsum_string(einsum_str: str) -> dict:
     input_matches = re.findall(tensor_pattern, rhs)
     if not input_matches:
         raise ValueError(f"No input tensors: {original}, {rhs}")
+    leftover = re.sub(tensor_pattern, "", rhs)
+    if "[" in leftover or "]" in leftover:
+        raise ValueError(
+            f"Invalid einsum format: {original}. Unbalanced brackets in the input "
+            f'tensor accesses (could not parse "{leftover}").'
+        )
 
     for m in input_matches:
         update(m, False)
